@@ -239,6 +239,102 @@ def sweep(pt, T, label, path, acc):
     return cells
 
 
+def f0_scale(coef, q):
+    a, c, b = coef
+    s2 = (q / (4 * math.pi)) ** 2
+    return abs(c) + sum(abs(ai) * math.exp(-bi * s2) for ai, bi in zip(a, b))
+
+
+def f0_closed(coef, q):
+    a, c, b = coef
+    s2 = (q / (4 * math.pi)) ** 2
+    return c + sum(ai * math.exp(-bi * s2) for ai, bi in zip(a, b))
+
+
+def sweep_f0_atoms(pt, T, label, path, acc):
+    """The Cromer-Mann entries as they are SERVED THROUGH THE ATOMS of table T: every element, every ion of it
+    (all charges of element.ions), every isotope and every isotope ion evaluates .xray.f0(Q) to the closed form
+    of the entry written for its element symbol and charge ('Fe', 'Fe2+', 'O1-'); an atom whose symbol+charge
+    has no entry serves no number (an exception, None or NaN - never a neighbour's or another state's fit)."""
+    try:
+        from ..ref import xray as rx
+        entries = rx.f0_entries()
+        parts = rx.f0_symbol_parts
+    except (ImportError, AttributeError):
+        acc.notes.append("Cromer-Mann reader (mc/ref/xray.py) not available: f0 through atoms skipped")
+        return 0
+    by_atom = {}
+    for e in entries:
+        p = parts(e["symbol"])
+        if p is None:
+            acc.count("cromermann_entries_without_atom(valence states)")
+            continue
+        if p in by_atom:
+            raise MachineryError("two Cromer-Mann entries for %r" % (p,))
+        by_atom[p] = e
+    cells = 0
+    used = set()
+
+    def bad(rule, key, expected, observed, code):
+        acc.violation("%s:%s" % (rule, "public" if label == "public" else "private"),
+                      dict(path=list(path), table=label, key=key, rule=rule),
+                      expected=expected, observed=observed, standalone=_snippet(path, label, code))
+
+    for el in T:
+        Z, sym = el.number, el.symbol
+        for q in (0,) + tuple(getattr(el, "ions", ())):
+            ent = by_atom.get((sym, q))
+            if ent is not None:
+                used.add((sym, q))
+                if ent["Z"] != Z:
+                    bad("cromermann-entry-atomic-number", [Z, q], ent["Z"], Z, "print(T[%d].symbol)" % Z)
+                    continue
+                coef = (ent["a"], ent["c"], ent["b"])
+                want = [(f0_closed(coef, Q), f0_scale(coef, Q)) for Q in QGRID]
+            atoms = [("ion" if q else "element", 0)] + [("isotope-ion" if q else "isotope", A) for A in el.isotopes]
+            for klass, A in atoms:
+                expr = "T[%d]" % Z + ("[%d]" % A if A else "") + (".ion[%d]" % q if q else "")
+                try:
+                    atom = el[A] if A else el
+                    if q:
+                        atom = atom.ion[q]
+                except Exception as e:
+                    bad("atom-raises", [Z, A, q], "an atom", "%s: %s" % (type(e).__name__, e), "print(%s)" % expr)
+                    break
+                if ent is None:
+                    cells += 1
+                    code = "print(%s.xray.f0(0.5))   # no entry %r in f0_WaasKirf.dat" % (
+                        expr, sym + ("%d%s" % (abs(q), "+" if q > 0 else "-") if q else ""))
+                    try:
+                        v = atom.xray.f0(0.5)
+                        v = None if v is None else float(v)
+                    except Exception:
+                        v = None
+                    if v is not None and v == v:
+                        bad("cromermann-f0-without-entry-through-" + klass, [Z, A, q], "no data", v, code)
+                        break
+                    continue
+                ok = True
+                for Q, (w, scale) in zip(QGRID, want):
+                    cells += 1
+                    code = "print(%s.xray.f0(%r))   # entry %r of f0_WaasKirf.dat" % (expr, Q, ent["symbol"])
+                    try:
+                        v = float(atom.xray.f0(Q))
+                    except Exception as e:
+                        bad("cromermann-f0-through-%s-raises" % klass, [Z, A, q, Q], w, "%s: %s" % (type(e).__name__, e), code)
+                        ok = False
+                        break
+                    if not (abs(v - w) <= 1e-9 * scale):
+                        bad("cromermann-f0-through-" + klass, [Z, A, q, Q], w, v, code)
+                        ok = False
+                        break
+                if not ok:
+                    break           # the other atoms of this element and charge would only repeat it
+    for key in sorted(set(by_atom) - used):
+        acc.count("cromermann_entries_not_reachable_from_the_table(charge not in element.ions)")
+    return cells
+
+
 def sweep_cromermann(pt, acc, path):
     """Cromer-Mann coefficients are global (not per table): getCMformula(symbol) for every entry."""
     cm = load_cm()
@@ -283,6 +379,7 @@ def run_path(args):
         live.append(("T", tables["T"]))
     for label, T in judged_tables(path, live):
         cells = sweep(pt, T, label, path, acc)
+        cells += sweep_f0_atoms(pt, T, label, path, acc)
         acc.states += cells
         acc.nontrivial += cells
         acc.evaluations += cells
